@@ -1,7 +1,11 @@
 import importlib
+import logging
 import sys
 
 from vf import core
+
+
+logging.disable(logging.CRITICAL)
 
 
 def main():
